@@ -185,4 +185,227 @@ theorem nestOk_of_depth (X : Ora) (O : EOra) (write : Bool) (defs : List ClassSr
   simp only [nestOk, htok, maxNest_module, decide_eq_true_eq]
   simpa [depthOk] using hdep
 
+/-! ### the nesting of the printed trees is bounded by the nesting of the schema -/
+
+theorem edepth_intExpr (i : Int) : edepth (intExpr i) = 0 := by unfold intExpr; split <;> rfl
+theorem edepth_natExpr (n : Nat) : edepth (natExpr n) = 0 := rfl
+theorem edepth_floatExpr (t : List Char) : edepth (floatExpr t) = 0 := by unfold floatExpr; split <;> rfl
+theorem edepth_qExpr (O : EOra) (q : Q) : edepth (qExpr O q) = 0 := by
+  unfold qExpr; split
+  · exact edepth_intExpr _
+  · exact edepth_floatExpr _
+theorem edepth_boolExpr (b : Bool) : edepth (boolExpr b) = 0 := by cases b <;> rfl
+
+mutual
+theorem edepth_valExpr (O : EOra) : ∀ v : PyVal, edepth (valExpr O v) = vdepth v
+  | .none => rfl
+  | .bool b => by simp [valExpr, edepth_boolExpr, vdepth]
+  | .int i => by simp [valExpr, edepth_intExpr, vdepth]
+  | .float q => by simp [valExpr, edepth_floatExpr, vdepth]
+  | .str s => rfl
+  | .list xs => by simp [valExpr, edepth, vdepth, edepth_valExprL O xs]
+  | .dict kvs => by simp [valExpr, edepth, vdepth, edepth_valExprKV O kvs]
+  | .dec _ => rfl
+  | .tuple _ => rfl
+  | .set _ _ => rfl
+  | .deque _ => rfl
+  | .enumv _ _ => rfl
+  | .inst _ _ => rfl
+  | .opaque _ => rfl
+theorem edepth_valExprL (O : EOra) : ∀ xs : List PyVal, listDepth (valExprL O xs) = vdepthL xs
+  | [] => rfl
+  | x :: xs => by simp [valExprL, listDepth, vdepthL, edepth_valExpr O x, edepth_valExprL O xs]
+theorem edepth_valExprKV (O : EOra) : ∀ kvs : List (PyVal × PyVal), kvsDepth (valExprKV O kvs) = vdepthKV kvs
+  | [] => rfl
+  | (k, v) :: r => by
+    simp [valExprKV, kvsDepth, vdepthKV, edepth_valExpr O k, edepth_valExpr O v, edepth_valExprKV O r]
+end
+
+theorem edepth_defaultExpr (O : EOra) (v : PyVal) : edepth (defaultExpr O v) = vdepth v := by
+  have := edepth_valExpr O v
+  cases v <;> simp_all [defaultExpr, edepth]
+
+theorem kwsDepth_append : ∀ (a b : List (List Char × PyExpr)), kwsDepth (a ++ b) = max (kwsDepth a) (kwsDepth b)
+  | [], b => by simp [kwsDepth]
+  | (k, v) :: a, b => by simp [kwsDepth, kwsDepth_append a b, Nat.max_assoc]
+
+theorem kwsDepth_optKw0 {α} (k : List Char) (f : α → PyExpr) (o : Option α) (hf : ∀ x, edepth (f x) = 0) :
+    kwsDepth (optKw k f o) = 0 := by
+  cases o <;> simp [optKw, kwsDepth, hf]
+
+theorem kwsDepth_withDefault (O : EOra) (d : Option PyVal) (kws : List (List Char × PyExpr)) :
+    kwsDepth (withDefault O d kws) = max (kwsDepth kws) (ddepth d) := by
+  cases d <;> simp [withDefault, optKw, kwsDepth_append, kwsDepth, ddepth, edepth_defaultExpr]
+
+theorem edepth_call_default (O : EOra) (f : List Char) (d : Option PyVal) (kws : List (List Char × PyExpr)) :
+    edepth (callS f (withDefault O d kws)) = 1 + max (kwsDepth kws) (ddepth d) := by
+  simp [callS, edepth, kwsDepth_withDefault]
+
+theorem arrKws_depth (sz : SizeOpts) (addl : Bool) : kwsDepth (arrKws sz addl) = 0 := by
+  simp only [arrKws, kwsDepth_append, kwsDepth_optKw0 _ _ _ edepth_natExpr]
+  cases sz.uniq <;> cases addl <;> simp [kw, kwsDepth, edepth]
+
+theorem strList_depth (xs : List String) : edepth (strList xs) ≤ 1 := by
+  simp only [strList, edepth]
+  have : listDepth (xs.map fun s => PyExpr.strLit s.toList) = 0 := by
+    induction xs with
+    | nil => rfl
+    | cons x xs ih => simp [listDepth, edepth, ih]
+  omega
+
+mutual
+theorem edepth_schemaExpr (O : EOra) : ∀ (s : Schema) (d : Option PyVal), edepth (schemaExpr O s d) ≤ sdepth s d
+  | .ref n, d => by simp [schemaExpr, edepth, sdepth]
+  | .num i mult mn mx ex, d => by
+    simp only [schemaExpr, edepth_call_default, sdepth, kwsDepth_append,
+      kwsDepth_optKw0 _ _ _ edepth_intExpr, kwsDepth_optKw0 _ _ _ (edepth_qExpr O)]
+    cases ex <;> simp [kw, kwsDepth, edepth]
+  | .str lo hi p, d => by
+    simp only [schemaExpr, edepth_call_default, sdepth, kwsDepth_append,
+      kwsDepth_optKw0 _ _ _ edepth_natExpr]
+    rw [kwsDepth_optKw0 _ _ _ (fun _ => rfl)]
+    simp
+  | .bool, d => by simp [schemaExpr, edepth_call_default, sdepth, kwsDepth]
+  | .enum vs, d => by
+    simp [schemaExpr, edepth_call_default, sdepth, kw, kwsDepth, edepth, edepth_valExprL O vs]
+  | .arrAny sz, d => by simp [schemaExpr, edepth_call_default, sdepth, arrKws_depth]
+  | .arrOf s sz, d => by
+    have ih := edepth_schemaExpr O s none
+    simp only [schemaExpr, edepth_call_default, sdepth, kwsDepth_append, arrKws_depth, kw, kwsDepth]
+    omega
+  | .arrPos ss addl sz, d => by
+    have ih := edepth_schemaExprL O ss
+    simp only [schemaExpr, edepth_call_default, sdepth, kwsDepth_append, arrKws_depth, kw, kwsDepth, edepth]
+    omega
+  | .mapAny a mn mx, d => by
+    simp only [schemaExpr, edepth_call_default, sdepth, kwsDepth_append, kwsDepth_optKw0 _ _ _ edepth_natExpr]
+    simp
+  | .mapOf v mn mx, d => by
+    have ih := edepth_schemaExpr O v none
+    simp only [schemaExpr, edepth_call_default, sdepth, kwsDepth_append, kwsDepth_optKw0 _ _ _ edepth_natExpr,
+      kw, kwsDepth]
+    have hS : edepth (callS chars!"String" []) = 1 := rfl
+    simp only [edepth, listDepth, hS]
+    omega
+  | .obj props defaults req addl, d => by
+    have ih := edepth_schemaKws O defaults props
+    have hr : kwsDepth (optKw chars!"_required" strList req) ≤ 1 := by
+      cases req with
+      | none => simp [optKw, kwsDepth]
+      | some r => have := strList_depth r; simp [optKw, kwsDepth]; omega
+    have ha : kwsDepth (if addl then [] else kw chars!"_additional_properties" (.const cFalse)) = 0 := by
+      cases addl <;> simp [kw, kwsDepth, edepth]
+    simp only [schemaExpr, edepth_call_default, sdepth, kwsDepth_append, ha]
+    omega
+  | .allOf ss, d => by
+    have ih := edepth_schemaExprL O ss
+    simp only [schemaExpr, edepth_call_default, sdepth, kw, kwsDepth, edepth]
+    omega
+  | .anyOf ss, d => by
+    have ih := edepth_schemaExprL O ss
+    simp only [schemaExpr, edepth_call_default, sdepth, kw, kwsDepth, edepth]
+    omega
+  | .oneOf ss, d => by
+    have ih := edepth_schemaExprL O ss
+    simp only [schemaExpr, edepth_call_default, sdepth, kw, kwsDepth, edepth]
+    omega
+  | .notS ss, d => by
+    have ih := edepth_schemaExprL O ss
+    simp only [schemaExpr, edepth_call_default, sdepth, kw, kwsDepth, edepth]
+    omega
+  | .unsupported _, d => by simp [schemaExpr, edepth, sdepth]
+theorem edepth_schemaExprL (O : EOra) : ∀ (ss : List Schema), listDepth (schemaExprL O ss) ≤ sdepthL ss
+  | [] => by simp [schemaExprL, listDepth, sdepthL]
+  | s :: ss => by
+    have h1 := edepth_schemaExpr O s none
+    have h2 := edepth_schemaExprL O ss
+    simp only [schemaExprL, listDepth, sdepthL]
+    omega
+theorem edepth_schemaKws (O : EOra) (defaults : List (String × PyVal)) :
+    ∀ (ps : List (String × Schema)), kwsDepth (schemaKws O defaults ps) ≤ sdepthP defaults ps
+  | [] => by simp [schemaKws, kwsDepth, sdepthP]
+  | (n, s) :: ps => by
+    have h1 := edepth_schemaExpr O s (lookup n defaults)
+    have h2 := edepth_schemaKws O defaults ps
+    simp only [schemaKws, kwsDepth, sdepthP]
+    omega
+end
+
+
+theorem itemsDepth_append : ∀ (a b : List Item), itemsDepth (a ++ b) = max (itemsDepth a) (itemsDepth b)
+  | [], b => by simp [itemsDepth]
+  | x :: a, b => by simp [itemsDepth, itemsDepth_append a b, Nat.max_assoc]
+
+theorem propItems_depth (O : EOra) (defaults : List (String × PyVal)) :
+    ∀ ps : List (String × Schema), itemsDepth (propItems O defaults ps) ≤ sdepthP defaults ps
+  | [] => by simp [propItems, itemsDepth, sdepthP]
+  | (n, s) :: ps => by
+    have h1 := edepth_schemaExpr O s (lookup n defaults)
+    have h2 := propItems_depth O defaults ps
+    simp only [propItems, itemsDepth, itemDepth, sdepthP]
+    omega
+
+theorem reqItems_depth (r : Option (List String)) : itemsDepth (reqItems r) ≤ 1 := by
+  cases r with
+  | none => simp [reqItems, itemsDepth]
+  | some r => have := strList_depth r; simp [reqItems, itemsDepth, itemDepth]; omega
+
+theorem docItems_depth (d : Option String) : itemsDepth (docItems d) = 0 := by
+  cases d <;> simp [docItems, itemsDepth, itemDepth]
+
+theorem finish_depth (all : List Item) : itemsDepth (if all.isEmpty then [Item.pass] else all) = itemsDepth all := by
+  cases all <;> simp [itemsDepth, itemDepth]
+
+theorem classDepth_le (O : EOra) (c : ClassSrc) : classDepth O c ≤ classNest c := by
+  obtain ⟨name, desc, s⟩ := c
+  have wrapped : ∀ s : Schema, itemsDepth (Item.assign nWrapped (schemaExpr O s none)
+      :: (if typedWrapped s then reqItems (some ["wrapped"]) else [])) ≤ max 1 (sdepth s none) := by
+    intro s
+    have h1 := edepth_schemaExpr O s none
+    have h2 := reqItems_depth (some ["wrapped"])
+    cases typedWrapped s <;> simp only [itemsDepth, itemDepth, if_true, if_false, Bool.false_eq_true] <;> omega
+  simp only [classDepth, classNest, classItems, finish_depth, itemsDepth_append, docItems_depth]
+  cases s with
+  | obj props defaults req addl =>
+    have h1 := propItems_depth O defaults props
+    have h2 := reqItems_depth (emittedRequired (.obj props defaults req addl))
+    have h3 : itemsDepth (if addl then [] else [Item.assign nAddl (.const cFalse)]) = 0 := by
+      cases addl <;> simp [itemsDepth, itemDepth, edepth]
+    simp only [itemsDepth_append, h3]
+    omega
+  | mapAny a mn mx =>
+    simp only []
+    split <;> simp [itemsDepth, itemDepth, edepth]
+  | mapOf v mn mx => simp [itemsDepth]
+  | num i m a b e => have := wrapped (.num i m a b e); simp only [] at this ⊢; omega
+  | str a b p => have := wrapped (.str a b p); simp only [] at this ⊢; omega
+  | bool => have := wrapped .bool; simp only [] at this ⊢; omega
+  | enum vs => have := wrapped (.enum vs); simp only [] at this ⊢; omega
+  | arrAny sz => have := wrapped (.arrAny sz); simp only [] at this ⊢; omega
+  | arrOf s sz => have := wrapped (.arrOf s sz); simp only [] at this ⊢; omega
+  | arrPos ss a sz => have := wrapped (.arrPos ss a sz); simp only [] at this ⊢; omega
+  | ref n => have := wrapped (.ref n); simp only [] at this ⊢; omega
+  | allOf ss => have := wrapped (.allOf ss); simp only [] at this ⊢; omega
+  | anyOf ss => have := wrapped (.anyOf ss); simp only [] at this ⊢; omega
+  | oneOf ss => have := wrapped (.oneOf ss); simp only [] at this ⊢; omega
+  | notS ss => have := wrapped (.notS ss); simp only [] at this ⊢; omega
+  | unsupported w => have := wrapped (.unsupported w); simp only [] at this ⊢; omega
+
+theorem depthOk_of_schema (O : EOra) (defs : List ClassSrc) (main : ClassSrc)
+    (h : schemaDepthOk defs main = true) : depthOk O defs main = true := by
+  simp only [schemaDepthOk, List.all_eq_true, decide_eq_true_eq] at h
+  simp only [depthOk, decide_eq_true_eq]
+  have key : ∀ cs : List ClassSrc, (∀ c ∈ cs, classNest c ≤ maxLevel) → modDepth O cs ≤ maxLevel := by
+    intro cs
+    induction cs with
+    | nil => intro _; simp [modDepth]
+    | cons c r ih =>
+      intro hc
+      have h1 := classDepth_le O c
+      have h2 := hc c (by simp)
+      have h3 := ih (fun x hx => hc x (by simp [hx]))
+      simp only [modDepth]
+      omega
+  exact key _ h
+
 end Typedpy.Emit
